@@ -215,9 +215,6 @@ type EndnotePos struct {
 	Val     string   `xml:"w:val,attr"`
 }
 
-// 全局脚注/尾注管理器
-var globalFootnoteManager *FootnoteManager
-
 // FootnoteManager 脚注管理器
 type FootnoteManager struct {
 	nextFootnoteID int
@@ -226,17 +223,38 @@ type FootnoteManager struct {
 	endnotes       map[string]*Endnote
 }
 
-// getFootnoteManager 获取全局脚注管理器
-func getFootnoteManager() *FootnoteManager {
-	if globalFootnoteManager == nil {
-		globalFootnoteManager = &FootnoteManager{
+// getFootnoteManager 获取文档自己的脚注/尾注管理器（按需创建）。
+// 每个文档拥有独立的管理器：脚注/尾注的编号和内容不会在文档之间共享。
+func (d *Document) getFootnoteManager() *FootnoteManager {
+	if d.footnoteManager == nil {
+		d.footnoteManager = &FootnoteManager{
 			nextFootnoteID: 1,
 			nextEndnoteID:  1,
 			footnotes:      make(map[string]*Footnote),
 			endnotes:       make(map[string]*Endnote),
 		}
 	}
-	return globalFootnoteManager
+	return d.footnoteManager
+}
+
+// clone 返回管理器的独立副本（脚注/尾注对象创建后不再修改，可以共享）
+func (m *FootnoteManager) clone() *FootnoteManager {
+	if m == nil {
+		return nil
+	}
+	c := &FootnoteManager{
+		nextFootnoteID: m.nextFootnoteID,
+		nextEndnoteID:  m.nextEndnoteID,
+		footnotes:      make(map[string]*Footnote, len(m.footnotes)),
+		endnotes:       make(map[string]*Endnote, len(m.endnotes)),
+	}
+	for id, n := range m.footnotes {
+		c.footnotes[id] = n
+	}
+	for id, n := range m.endnotes {
+		c.endnotes[id] = n
+	}
+	return c
 }
 
 // DefaultFootnoteConfig 返回默认脚注配置
@@ -261,7 +279,7 @@ func (d *Document) AddEndnote(text string, endnoteText string) error {
 
 // addFootnoteOrEndnote 添加脚注或尾注的通用方法
 func (d *Document) addFootnoteOrEndnote(text string, noteText string, noteType FootnoteType) error {
-	manager := getFootnoteManager()
+	manager := d.getFootnoteManager()
 
 	// 确保脚注/尾注系统已初始化
 	d.ensureFootnoteInitialized(noteType)
@@ -312,7 +330,7 @@ func (d *Document) addFootnoteOrEndnote(text string, noteText string, noteType F
 
 // AddFootnoteToRun 在现有Run中添加脚注引用
 func (d *Document) AddFootnoteToRun(run *Run, footnoteText string) error {
-	manager := getFootnoteManager()
+	manager := d.getFootnoteManager()
 	d.ensureFootnoteInitialized(FootnoteTypeFootnote)
 
 	noteID := strconv.Itoa(manager.nextFootnoteID)
@@ -454,7 +472,7 @@ func (d *Document) initializeEndnotes() {
 
 // createNoteContent 创建脚注/尾注内容
 func (d *Document) createNoteContent(noteID string, noteText string, noteType FootnoteType) error {
-	manager := getFootnoteManager()
+	manager := d.getFootnoteManager()
 
 	// 创建脚注/尾注段落
 	noteParagraph := &Paragraph{
@@ -492,7 +510,7 @@ func (d *Document) createNoteContent(noteID string, noteText string, noteType Fo
 
 // updateFootnotesFile 更新脚注文件
 func (d *Document) updateFootnotesFile() {
-	manager := getFootnoteManager()
+	manager := d.getFootnoteManager()
 
 	footnotes := &Footnotes{
 		Xmlns:     "http://schemas.openxmlformats.org/wordprocessingml/2006/main",
@@ -533,7 +551,7 @@ func (d *Document) updateFootnotesFile() {
 
 // updateEndnotesFile 更新尾注文件
 func (d *Document) updateEndnotesFile() {
-	manager := getFootnoteManager()
+	manager := d.getFootnoteManager()
 
 	endnotes := &Endnotes{
 		Xmlns:    "http://schemas.openxmlformats.org/wordprocessingml/2006/main",
@@ -618,19 +636,19 @@ func (d *Document) addEndnoteRelationship() {
 
 // GetFootnoteCount 获取脚注数量
 func (d *Document) GetFootnoteCount() int {
-	manager := getFootnoteManager()
+	manager := d.getFootnoteManager()
 	return len(manager.footnotes)
 }
 
 // GetEndnoteCount 获取尾注数量
 func (d *Document) GetEndnoteCount() int {
-	manager := getFootnoteManager()
+	manager := d.getFootnoteManager()
 	return len(manager.endnotes)
 }
 
 // RemoveFootnote 删除指定脚注
 func (d *Document) RemoveFootnote(footnoteID string) error {
-	manager := getFootnoteManager()
+	manager := d.getFootnoteManager()
 
 	if _, exists := manager.footnotes[footnoteID]; !exists {
 		return fmt.Errorf("脚注 %s 不存在", footnoteID)
@@ -644,7 +662,7 @@ func (d *Document) RemoveFootnote(footnoteID string) error {
 
 // RemoveEndnote 删除指定尾注
 func (d *Document) RemoveEndnote(endnoteID string) error {
-	manager := getFootnoteManager()
+	manager := d.getFootnoteManager()
 
 	if _, exists := manager.endnotes[endnoteID]; !exists {
 		return fmt.Errorf("尾注 %s 不存在", endnoteID)
